@@ -34,7 +34,9 @@ func TestC15Race(t *testing.T) {
 		runFor := time.Duration(rapid.IntRange(15, 60).Draw(t, "run_ms")) * time.Millisecond
 		closeRacing := rapid.Bool().Draw(t, "close_racing")
 		keyed := rapid.IntRange(0, 3).Draw(t, "keyed") == 0
-		desc := fmt.Sprintf("custom=%d tcpPeers=%d udpPeers=%d apiGoroutines=%d heartbeat=%v run=%v closeRacing=%v keyed=%v", ncustom, ntcp, nudp, napi, hbPeriod, runFor, closeRacing, keyed)
+		slowConsumer := rapid.IntRange(0, 2).Draw(t, "slow_consumer") == 0
+		leaveBeforeClose := rapid.Bool().Draw(t, "leave_before_close")
+		desc := fmt.Sprintf("custom=%d tcpPeers=%d udpPeers=%d apiGoroutines=%d heartbeat=%v run=%v closeRacing=%v keyed=%v slowConsumer=%v peersLeaveBeforeClose=%v", ncustom, ntcp, nudp, napi, hbPeriod, runFor, closeRacing, keyed, slowConsumer, leaveBeforeClose)
 
 		pipes := make([]*sim.Pipe, ncustom)
 		var endpoints []gomavlib.EndpointConf
@@ -61,6 +63,9 @@ func TestC15Race(t *testing.T) {
 		go func() {
 			defer close(consumerDone)
 			for ev := range n.Events() {
+				if slowConsumer {
+					time.Sleep(500 * time.Microsecond) // events stay pending: channels linger in every intermediate state
+				}
 				switch e := ev.(type) {
 				case *gomavlib.EventChannelOpen:
 					chMu.Lock()
@@ -183,6 +188,15 @@ func TestC15Race(t *testing.T) {
 			}(g)
 		}
 		time.Sleep(runFor)
+		if leaveBeforeClose {
+			// peers vanish right before Close: their channels are terminating by themselves while the node terminates
+			peersMu.Lock()
+			for _, p := range peers {
+				p.Conn.Close()
+			}
+			peersMu.Unlock()
+			time.Sleep(time.Duration(rapid.IntRange(0, 3000).Draw(t, "leave_gap_us")) * time.Microsecond)
+		}
 		if closeRacing {
 			// Close while everything is still running
 			if _, err := closeNode(n, bound); err != nil {
